@@ -82,6 +82,10 @@ def run(ctx):
     fast = P.probe_fast_path(ctx.acc)
     ctx.require(len(fast) >= 1, "harness cannot reach the PBKDF2 fast path (_pbkdf2_hmac_assist) of any hash")
 
+    # the known S2V defect on the simplest key first, so that its record is the smallest one
+    from ._c12_misc import check_s2v
+    check_s2v(bytes(16), [], ctx.acc)
+
     tasks = build_tasks(q)
     shards = pack(tasks, max(32, ctx.workers * 6))
     ctx.pmap(worker, shards)
@@ -121,7 +125,6 @@ def run(ctx):
     ctx.require(len(a.distinct.get("outputs", ())) > 200, "fewer than 200 distinct output digests observed")
     ctx.require(len(cls) > (300 if q else 1000), "fewer behaviour classes than the grid must produce")
 
-    ev = {k: v for k, v in n.items() if not k.startswith("_")}
     ctx.coverage_extra.update({
         "evaluations": n.get("evaluations", 0),
         "distinct_nontrivial": len(cls),
@@ -129,7 +132,6 @@ def run(ctx):
         "tasks": len(tasks),
         "selftest_s": round(t_self, 1),
         "pbkdf2_fast_path_hashes": sorted(fast),
-        "per_part_counters": {k: ev[k] for k in sorted(ev)},
         "grids": P.grid_description(q),
     })
     ctx.assume("data values: only the value alphabet (zero, 0xFF, ascending, SHAKE256(seed)) for secrets, "
